@@ -17,8 +17,8 @@ CHECKS = {
          "DESIGN.md §4 C17"),
  "C16": ("model_checking",
          "probabilistic explicit-state exploration: all generator scripts on a grid, rejection chain solved exactly",
-         "The real ExpRestricted01::sample is run under a scripted generator: every first-try value on a 2^20 (2^22) grid and every (u2,u3) pair behind a loop-forcing first word - u3 on N = 4096 (16384) midpoints, u2 on N midpoints for rates <= 1 and otherwise on N/4 midpoints of each of 2L geometric strata towards 0 and towards 1, weighted by their width -, plus all 8^5 scripts over extreme generator words and the 81 generator values around the accept/loop boundary 1/c1. The sampler is a 3-state Markov chain (first try / loop / output) whose output distribution is solved exactly from the enumerated transition masses and compared at the 64 quantiles of (1-exp(-lambda t))/(1-exp(-lambda)) for ~80 (quick) / ~300 (thorough) rates from 1e-300 to 1e9; every output is checked to lie in [0,1). Decides the law up to the stated discretisation tolerance (observed error <= 2e-4, tolerance 5e-4..1e-3 quick) for every rate alike; this resolution exposed the wrong law for rates above 709.78 that was then repaired.",
-         "rand's Uniform<f64> word->value map (self-checked); tolerance 2/N+1e-5 (one stratum) or 4/N+1e-5; rates outside the list not explored",
+         "The real ExpRestricted01::sample is run under a scripted generator: every first-try value on a 2^22 (2^24) grid and, behind a loop-forcing first word, every u2 on 4N midpoints of [0,1) for rates <= 1 and otherwise on N midpoints of each of 2L geometric strata towards 0 and towards 1 (N = 4096 (16384)); for every u2 the outcome as a function of u3 is probed at 258 points and every switch between neighbouring probes is located by bisection on the 52-bit generator value, so the measure of every outcome inside a row is exact; plus all 8^5 scripts over extreme generator words and the 81 generator values around the accept/loop boundary 1/c1. The sampler is a 3-state Markov chain (first try / loop / output) whose output distribution is solved exactly from the enumerated transition masses and compared at the 64 quantiles of (1-exp(-lambda t))/(1-exp(-lambda)) for ~80 (quick) / ~300 (thorough) rates from 1e-300 to 1e9; every output is checked to lie in [0,1). Decides the law up to 5e-6 (2e-6) at those quantiles (observed error <= 8e-7) for every rate alike; this resolution exposed the wrong law for rates above 709.78 that was then repaired. The structure-free scripts are repeated with a trace-level logger installed.",
+         "rand's Uniform<f64> word->value map (self-checked); an outcome interval narrower than 1/256 in u3 would be missed; rates outside the list not explored",
          "DESIGN.md §4 C16"),
  "C19": ("exploration",
          "exhaustive input-domain enumeration (all 2^32 arguments; structured sub-domains of 2^64)",
